@@ -10,7 +10,6 @@ package storage
 
 //@ func LifecycleExpirationDueTime
 //@ mode nosafety
-//@ requires rule != nil
 //@ ensures[C25:expiration-due] (rule.Expiration == nil ==> result == nil) &&
 //@     (rule.Expiration != nil && rule.Expiration.Date != nil ==> result != nil && result.Equal(*rule.Expiration.Date)) &&
 //@     (rule.Expiration != nil && rule.Expiration.Date == nil && rule.Expiration.Days != nil ==>
@@ -19,27 +18,35 @@ package storage
 
 //@ func LifecycleTransitionDueTime
 //@ mode nosafety
-//@ requires transition != nil
 //@ ensures[C25:transition-due] (transition.Date != nil ==> result != nil && result.Equal(*transition.Date)) &&
 //@     (transition.Date == nil && transition.Days != nil ==> result != nil && result.Equal(specDueAfterDays(objectCreated, *transition.Days))) &&
 //@     (transition.Date == nil && transition.Days == nil ==> result == nil)
 
 //@ func LifecycleAbortDueTime
 //@ mode nosafety
-//@ requires rule != nil
 //@ ensures[C25:abort-due] (rule.AbortIncompleteMultipartUpload == nil || rule.AbortIncompleteMultipartUpload.DaysAfterInitiation == nil ==> result == nil) &&
 //@     (rule.AbortIncompleteMultipartUpload != nil && rule.AbortIncompleteMultipartUpload.DaysAfterInitiation != nil ==>
 //@         result != nil && result.Equal(specDueAfterDays(uploadInitiated, *rule.AbortIncompleteMultipartUpload.DaysAfterInitiation)))
 
 //@ func LifecycleNoncurrentExpirationDueTime
 //@ mode nosafety
-//@ requires rule != nil
 //@ ensures[C25:noncurrent-expiration-due] (rule.NoncurrentVersionExpiration == nil || rule.NoncurrentVersionExpiration.NoncurrentDays == nil ==> result == nil) &&
 //@     (rule.NoncurrentVersionExpiration != nil && rule.NoncurrentVersionExpiration.NoncurrentDays != nil ==>
 //@         result != nil && result.Equal(specDueAfterDays(versionLastModified, *rule.NoncurrentVersionExpiration.NoncurrentDays)))
 
 //@ func LifecycleNoncurrentTransitionDueTime
 //@ mode nosafety
-//@ requires transition != nil
 //@ ensures[C25:noncurrent-transition-due] (transition.NoncurrentDays == nil ==> result == nil) &&
 //@     (transition.NoncurrentDays != nil ==> result != nil && result.Equal(specDueAfterDays(versionLastModified, *transition.NoncurrentDays)))
+
+//@ func lifecycleRulePrefix
+//@ pure
+
+// A rule selects an object only if the S3 filter semantics select it (prefix, size bounds, every tag). The converse
+// (every selected object is reported) is not needed for "never acts on the wrong data" and is not claimed: the solvers
+// do not decide it within the quick budget.
+//@ func LifecycleRuleMatchesObject
+//@ mode nosafety
+//@ ensures[C25:selected-only-if-matching] rule != nil && result ==> specRuleSelects(rule, key, size, tags)
+//@ loop 0 invariant 0 <= iter__ && iter__ <= len(filterTags) &&
+//@     forall j :: 0 <= j && j < iter__ ==> specTagMatches(filterTags[j], tags)
